@@ -69,6 +69,16 @@ def normalise(e, res2field, fn, m, wh):
     return tuple(normalise(x, res2field, fn, m, wh) if isinstance(x, tuple) else x for x in e)
 
 
+def local_name(ptr):
+    """A name for a scratch buffer of the function itself (an item may pass through one on its way into the header)."""
+    if ptr is None or not isinstance(ptr, tuple):
+        return None
+    root, off, var = ptr_parts(ptr)
+    if root[0] in ("alloca", "sym") and not var:
+        return "<local %s+%d>" % (root[1], off)
+    return None
+
+
 def grammar_of_path(p, fn, m, wh, direction):
     """(guards, items, info) of one path. direction: 'decode' | 'encode'."""
     ev = p.events
@@ -81,6 +91,9 @@ def grammar_of_path(p, fn, m, wh, direction):
             if f and v[0] == "call":
                 res2field[v] = f
     items = []
+    # (a decoded value is stored into its field after the call that produced it: the walk ends with the last such store)
+    late_store = max([k for k, e in enumerate(ev) if e.kind == "store" and direction == "decode" and
+                      strip_casts(e.val) in res2field and field_name(e.ptr, fn, m, wh)], default=-1)
     label = {}      # field -> item index currently held
     last_item_pos = -1
     guard_fields = {}
@@ -104,7 +117,7 @@ def grammar_of_path(p, fn, m, wh, direction):
             elif e.callee in ("rf_unpack_bytes", "rf_pack_bytes") and \
                     (e.callee == "rf_unpack_bytes") == (direction == "decode"):
                 dst = e.args[1]
-                f = None if dst == ("null",) else field_name(dst, fn, m, wh)
+                f = None if dst == ("null",) else (field_name(dst, fn, m, wh) or local_name(dst))
                 ln = normalise(e.args[2], res2field, fn, m, wh)
                 items.append(Item("bytes", None, "", f if dst != ("null",) else "<skip>", fmt(ln), e.inst.loc))
                 items[-1].length_expr = ln
@@ -114,7 +127,7 @@ def grammar_of_path(p, fn, m, wh, direction):
             elif e.callee == "memcmp":
                 pass
         elif e.kind == "memcpy":
-            d, s = field_name(e.ptr, fn, m, wh), field_name(e.val, fn, m, wh) if e.val else None
+            d, s = field_name(e.ptr, fn, m, wh), (field_name(e.val, fn, m, wh) or local_name(e.val)) if e.val else None
             if d and s is None and e.val is not None and ptr_parts(e.val)[0][0] == "g":
                 # copied from a constant that an earlier memcmp on this path found equal to a field: same bytes as that field
                 for c, taken, inst in p.conds:
@@ -124,10 +137,11 @@ def grammar_of_path(p, fn, m, wh, direction):
                         cm = strip_casts(cc[2] if cc[3][0] == "c" else cc[3])
                         if cm[0] == "call" and cm[1] == "memcmp" and len(cm[2]) == 3 and cm[2][2] == e.extra:
                             for a_, b_ in ((cm[2][0], cm[2][1]), (cm[2][1], cm[2][0])):
-                                if a_ == e.val and field_name(b_, fn, m, wh) in label:
-                                    s = field_name(b_, fn, m, wh)
+                                if a_ == e.val and (field_name(b_, fn, m, wh) or local_name(b_)) in label:
+                                    s = field_name(b_, fn, m, wh) or local_name(b_)
             if d and s and s in label:
                 label[d] = label[s]
+                last_item_pos = max(last_item_pos, k)      # the copy decides which field holds the item: part of the walk
     # final names: an item is named by the field that holds it at the end
     final = {}
     for f, idx in label.items():
@@ -136,11 +150,14 @@ def grammar_of_path(p, fn, m, wh, direction):
         if it.kind == "int" and it.field is None:
             it.field = "<discarded>"
         if idx in final and it.field not in final[idx]:
-            it.field = sorted(final[idx])[0]
+            it.field = sorted(final[idx], key=lambda f_: (f_.startswith("<local"), f_))[0]
+        elif idx in final and isinstance(it.field, str) and it.field.startswith("<local"):
+            # read into a scratch buffer and copied into the header from there: named by the field that ends up holding it
+            it.field = sorted(final[idx], key=lambda f_: (f_.startswith("<local"), f_))[0]
     # guards: conditions taken before the last item
     guards = []
     for (c, taken, inst), pos in zip(p.conds, p.cond_pos):
-        if pos > last_item_pos:
+        if pos > max(last_item_pos, late_store):
             continue
         n = normalise(c, res2field, fn, m, wh)
         g = classify_guard(n, taken)
